@@ -130,6 +130,9 @@ type Hist struct {
 	builds              int
 	scanActive          bool
 	inBuild             bool
+	// what this controller lifetime has been through (part of the canonical state: code may remember
+	// objects from before a provider rebuild, from its first scale-up or its first removal)
+	lifeRebuilt, lifeScaledUp, lifeRemoved bool
 	lastLifetimeScanned int
 	journalMark         int
 	Scans               int64
@@ -203,6 +206,9 @@ func (b builder) Build() (cloudprovider.CloudProvider, error) {
 		h.W.Phase = "build"
 	}
 	h.inBuild = true
+	if h.scanActive {
+		h.lifeRebuilt = true
+	}
 	defer func() {
 		h.inBuild = false
 		if !h.scanActive {
@@ -246,6 +252,7 @@ func ProviderConfigs(groups []GroupSpec, fleetTimeout time.Duration) []cloudprov
 // would exit and be restarted).
 func (h *Hist) NewController() (ok bool) {
 	h.C = nil
+	h.lifeRebuilt, h.lifeScaledUp, h.lifeRemoved = false, false, false
 	h.builds++
 	opts := controller.Opts{
 		K8SClient:            h.W.Client(),
@@ -460,6 +467,12 @@ func (h *Hist) scan() {
 	ctx.Entries = append([]sim.Entry(nil), w.J[h.journalMark:]...)
 	h.journalMark = len(w.J)
 	for _, e := range ctx.Entries {
+		if e.Err == "" && (e.Op == sim.OpSetDesired || e.Op == sim.OpAttach) {
+			h.lifeScaledUp = true
+		}
+		if e.Err == "" && e.Op == sim.OpTerminate {
+			h.lifeRemoved = true
+		}
 		if e.Err == "injected" || e.Err == "conflict" {
 			ctx.Faulted = true // an injected failure, or an update refused because another client wrote first
 		}
